@@ -135,6 +135,13 @@ let run (v : variant) (ic : in_channel) (oc : out_channel) =
       let s = run_script v fuel fuel p in
       Printf.fprintf oc "BEGIN %s\n" id;
       List.iter (print_vline oc) (svisible s);
+      (* diagnostics of the model's final state (lines starting with Z are not compared) *)
+      List.iter (fun (id, (t : tcp)) ->
+          if t.t_outgoing <> [] || t.t_send_h <> None || t.t_recv_h <> None || t.t_reorder <> [] then
+            Printf.fprintf oc "Z tcp %s outgoing=%d inflight=%s cwnd=%s inq=%d reorder=%d recv_h=%d send_h=%d\n" (zs id)
+              (List.length t.t_outgoing) (zs t.t_inflight) (zs t.t_cwnd) (List.length t.t_inq) (List.length t.t_reorder)
+              (if t.t_recv_h = None then 0 else 1) (if t.t_send_h = None then 0 else 1))
+        s.world.w_tcps;
       (match pcap_bytes s with
        | Some b -> Printf.fprintf oc "F %s\n" (Pdriver.hex_of_bytes b)
        | None -> ());
